@@ -24,6 +24,9 @@ Spec run (exact Fractions, independent of the model's correctness):
     certificate is proposed by the exact Rat model, but its verification does not depend on
     the model.  The code's status must be the verified class (0 / 2 / 3); its `fun` must be
     the certified optimal value inside 1e-9.
+  * termination: `lpcycle rat` replays Phase 2 with a record of the bases visited; a recurring basis
+    (the exact run cycles) is a spec failure `lex_cycle`; `lexStartOK` (hypothesis of the theorem
+    `linprog_terminates_lex`) is counted, status 1 under `lexStartOK` is a spec failure.
   * minmax: x, y probability vectors, min_j (x'A)_j >= v - tol, max_i (Ay)_i <= v + tol.
 """
 from fractions import Fraction
@@ -229,6 +232,14 @@ def gen_lp(rng, stream):
         if m >= 2 and R.random() < 0.5:          # duplicated / proportional rows
             Aub[-1] = list(Aub[0])
             bub[-1] = bub[0]
+    elif stream == "cone":
+        # all right-hand sides 0: every pivot is degenerate, ties are decided by the lexicographic passes only
+        bub = [0] * m
+        beq = [0] * k
+        if k >= 2 and R.random() < 0.5:
+            i, j = R.sample(range(k), 2)
+            sgn = R.choice([1, -1])
+            Aeq[j] = [sgn * a for a in Aeq[i]]
     elif stream == "bounded":
         # a positive row keeps the feasible set bounded: mostly status 0 with real work
         Aub = [[R.randint(0, 3) for _ in range(n)] for _ in range(m)]
@@ -466,6 +477,36 @@ def lp_cases(ctx, lp, cases, max_iter=10 ** 6, float_only=False):
     cases.append(Case("C04 lpstat rat %s maxiter=1000000 fea=0 piv=0 diff=0" % lp.wire(enc, encm), "st=%d" % st,
                       nontrivial=False, cmp=cmp_stat, tag="lp-stat"))
 
+    # (4) termination: `lexStartOK` (hypothesis of the theorem linprog_terminates_lex) and a replay of
+    #     Phase 2 that detects a recurring basis (the only way the exact run can fail to terminate)
+    def cmp_cycle(mo, im):
+        d = parse_model(mo)
+        if d["lexok"] != d["lexstart"]:
+            return "lexStartOK and the replay's lexRowsOK disagree"
+        if d["cycled"] == "1":
+            rp = lp.replay()
+            rp.update({"model": mo, "code_status": st, "code_num_iter": int(res.num_iter)})
+            ctx.spec_fail("lex_cycle", "the exact model revisits a basis in Phase 2 (lexicographic rule cycles)", rp)
+            return "model cycles"
+        if d["st"] != str(st):
+            return "replay status differs"
+        if int(d["cleanup"]) > 0:
+            ctx.count("term:cleanup-pivot")
+        if int(d["negcleanup"]) > 0:
+            ctx.count("term:cleanup-pivot-on-negative-element")
+        if d["lexstart"] == "0":
+            ctx.count("term:lexStartOK-fails")
+            if int(d["pivots"]) > 0:
+                ctx.count("term:lexStartOK-fails-and-phase2-pivots")
+        else:
+            ctx.count("term:lexStartOK-holds")
+            if st == 1:
+                ctx.spec_fail("lex_terminates", "status 1 although lexStartOK holds", lp.replay())
+        return None
+
+    cases.append(Case("C04 lpcycle rat %s maxiter=100000 fea=0 piv=0 diff=0" % lp.wire(enc, encm), "st=%d" % st,
+                      nontrivial=False, cmp=cmp_cycle, tag="lp-cycle"))
+
 
 # ----------------------------------------------------------------------------
 # minmax
@@ -628,7 +669,8 @@ def run(ctx):
         lp_cases(ctx, lp, cases)
 
     per = ctx.n(70, 2500)
-    for stream in ["ub", "eq", "mixed", "negb", "degenerate", "bounded", "feasible", "redundant", "bounded", "feasible"]:
+    for stream in ["ub", "eq", "mixed", "negb", "degenerate", "bounded", "feasible", "redundant", "bounded", "feasible",
+                   "cone"]:
         for _ in range(per):
             lp_cases(ctx, gen_lp(R, stream), cases)
     for _ in range(ctx.n(4, 60)):
